@@ -444,3 +444,6 @@ NONTRIVIAL = "one obligation per constant, per enumerated path, per release-chai
 EXPLANATION += (
     ' Round-5: R4 also restricts who calls PoolSet::alloc_str (promotion and parameter binding). R6 shares C02-R4/R5 (a slot goes back only after every borrower was cut loose: promote/detach copy every pool-borrowed string, at every size up to the largest class and at every array depth). R7: between taking a mark on the persistent arena and resetting to it, nothing that can reach PoolSet::alloc is called - a fallback block made there would be recycled while live.'
 )
+EXPLANATION += (
+    ' Round 6: R6 also shares C02-R6 (nothing that borrows a slot is kept across a call that can return it).'
+)
